@@ -160,3 +160,18 @@ Theorem C04_complete_no_panic : forall U act_ge db pa,
   (forall c, In c db -> req_wf U c = true) -> prop_complete db pa = true ->
   decide U act_ge db pa <> None.
 Proof. exact complete_no_panic. Qed.
+
+(* ... and propagate delivers the part of prop_complete that concerns watched clauses: after a call that
+   ends without conflict no watched clause (outside the exempt ones) is falsified and every asserted
+   literal is true, where the hypotheses -- evaluated at every call in every hook log -- hold
+   (Cdcl/PropagateComplete.v: the two-watched-literal scheme loses no clause) *)
+From Resolvo Require Import Cdcl.PropagateCompleteHyp.
+Theorem C04_checked_propagate_complete : forall db xs level asserts units st st',
+  prop_hyps db asserts units st = true -> comp_hyps xs st = true ->
+  propagate db level asserts units st = Some (st', None) ->
+  (length (ps_trail st') <= ps_pidx st')%nat /\
+  (forall id w, wget (ps_watch st') id = Some w -> ~ In id xs ->
+     exists c, nth_error db (N.to_nat id) = Some c /\ falsified (ps_trail st') (cl_lits c) = false) /\
+  (forall x, In x (asserts ++ units) -> plit_true st' (fst x) = true) /\
+  Inv2 (fun id => In id xs) st' /\ WComp (ps_watch st') (ps_lists st').
+Proof. exact checked_propagate_complete. Qed.
